@@ -39,7 +39,8 @@ OvfDisks(c, k) == IF k = 0 THEN <<>>
                   ELSE OvfDisks(c, k - 1)
 
 \* ---------------- VirtualBox ----------------
-VbDisk == [format : {"VDI", "vdi", "Vdi", "VMDK", "VHD"}, type : {"Normal", "Immutable", "Writethrough"}, loc : BOOLEAN, nested : BOOLEAN]
+\* type "absent": the element carries no type attribute (differencing children of a snapshot tree do not)
+VbDisk == [format : {"VDI", "vdi", "Vdi", "VMDK", "VHD"}, type : {"Normal", "Immutable", "Writethrough", "absent"}, loc : BOOLEAN, nested : BOOLEAN]
 VbCfgs == UNION {[1..k -> VbDisk] : k \in 0..MaxDev}
 RECURSIVE VbDisks(_, _)
 VbDisks(c, k) == IF k = 0 THEN <<>>
